@@ -27,47 +27,83 @@ def entityAhead (E : Ent) (rest : List B) : Bool :=
 
 def ampEsc : List B := [amp, 97, 109, 112, semi]   -- "&amp;"
 
-/-- the scanner; `quote = 0` means "not inside a quoted attribute value" -/
-def esc (E : Ent) : (inTag : Bool) → (quote : B) → List B → List B
-  | _, _, [] => []
-  | inTag, q, b :: rest =>
+def cmOpen : List B := [33, 45, 45]                          -- "!--"   (behind the '<')
+def cmClose : List B := [45, 45, 62]                         -- "-->"
+def cdOpen : List B := [33, 91, 67, 68, 65, 84, 65, 91]      -- "![CDATA["
+def cdClose : List B := [93, 93, 62]                         -- "]]>"
+
+def closer (blk : Nat) : List B := if blk = 0 then cmClose else cdClose
+
+/-- the scanner; `quote = 0` means "not inside a quoted attribute value".  Comments and CDATA sections are not markup
+    (`nonMarkupEnd`): `sk` bytes are still to be copied as they are; `blk = 1` inside a comment, `blk = 2` inside a CDATA
+    section (copied up to and including the terminator, or to the end of the text) -/
+def esc (E : Ent) : (inTag : Bool) → (quote : B) → (sk blk : Nat) → List B → List B
+  | _, _, _, _, [] => []
+  | inTag, q, sk + 1, blk, b :: rest => b :: esc E inTag q sk blk rest
+  | inTag, q, 0, blk + 1, b :: rest =>
+    if (closer blk).isPrefixOf (b :: rest) then b :: esc E inTag q 2 0 rest
+    else b :: esc E inTag q 0 (blk + 1) rest
+  | inTag, q, 0, 0, b :: rest =>
     if q != 0 then
-      if b == q then b :: esc E inTag 0 rest
+      if b == q then b :: esc E inTag 0 0 0 rest
       else if b == amp then
-        (if entityAhead E rest then [b] else ampEsc) ++ esc E inTag q rest
-      else b :: esc E inTag q rest
+        (if entityAhead E rest then [b] else ampEsc) ++ esc E inTag q 0 0 rest
+      else b :: esc E inTag q 0 0 rest
+    else if b == lt && cmOpen.isPrefixOf rest then b :: esc E inTag 0 3 1 rest
+    else if b == lt && cdOpen.isPrefixOf rest then b :: esc E inTag 0 8 2 rest
     else
       let inTag' := if b == lt then true else if b == gt then false else inTag
       let q' := if (b == dq || b == sq) && inTag then b else 0
-      b :: esc E inTag' q' rest
+      b :: esc E inTag' q' 0 0 rest
 
 /-- **Law 1**: without any `&` the pass is the identity. -/
-theorem esc_noamp (E : Ent) : ∀ (s : List B) (inTag : Bool) (q : B), (∀ b ∈ s, b ≠ amp) → esc E inTag q s = s
-  | [], _, _, _ => rfl
-  | b :: rest, inTag, q, h => by
+theorem esc_noamp (E : Ent) : ∀ (s : List B) (inTag : Bool) (q : B) (sk blk : Nat), (∀ b ∈ s, b ≠ amp) → esc E inTag q sk blk s = s
+  | [], _, _, _, _, _ => by cases ‹Nat› <;> cases ‹Nat› <;> rfl
+  | b :: rest, inTag, q, sk + 1, blk, h => by
+    rw [esc, esc_noamp E rest _ _ _ _ (fun x hx => h x (by simp [hx]))]
+  | b :: rest, inTag, q, 0, blk + 1, h => by
+    have hr : ∀ x ∈ rest, x ≠ amp := fun x hx => h x (by simp [hx])
+    rw [esc]
+    split <;> rw [esc_noamp E rest _ _ _ _ hr]
+  | b :: rest, inTag, q, 0, 0, h => by
     have hb : b ≠ amp := h b (by simp)
     have hr : ∀ x ∈ rest, x ≠ amp := fun x hx => h x (by simp [hx])
-    unfold esc
+    rw [esc]
     by_cases hq : q != 0
     · simp only [hq, ite_true]
       by_cases hbq : b == q
-      · simp [hbq, esc_noamp E rest inTag 0 hr]
+      · simp [hbq, esc_noamp E rest inTag 0 0 0 hr]
       · have : (b == amp) = false := by simpa using hb
-        simp [hbq, this, esc_noamp E rest inTag q hr]
+        simp [hbq, this, esc_noamp E rest inTag q 0 0 hr]
     · simp only [hq, Bool.false_eq_true, ite_false]
-      simp [esc_noamp E rest _ _ hr]
+      split
+      · rw [esc_noamp E rest _ _ _ _ hr]
+      · split
+        · rw [esc_noamp E rest _ _ _ _ hr]
+        · simp [esc_noamp E rest _ _ _ _ hr]
 
 /-- **Law 2**: outside quoted attribute values nothing changes (bytes are only rewritten while `quote ≠ 0`);
     stated for a text that contains no quote character at all. -/
-theorem esc_noquote (E : Ent) : ∀ (s : List B) (inTag : Bool), (∀ b ∈ s, b ≠ dq ∧ b ≠ sq) → esc E inTag 0 s = s
-  | [], _, _ => rfl
-  | b :: rest, inTag, h => by
+theorem esc_noquote (E : Ent) : ∀ (s : List B) (inTag : Bool) (sk blk : Nat), (∀ b ∈ s, b ≠ dq ∧ b ≠ sq) → esc E inTag 0 sk blk s = s
+  | [], _, _, _, _ => by cases ‹Nat› <;> cases ‹Nat› <;> rfl
+  | b :: rest, inTag, sk + 1, blk, h => by
+    rw [esc, esc_noquote E rest _ _ _ (fun x hx => h x (by simp [hx]))]
+  | b :: rest, inTag, 0, blk + 1, h => by
+    have hr : ∀ x ∈ rest, x ≠ dq ∧ x ≠ sq := fun x hx => h x (by simp [hx])
+    rw [esc]
+    split <;> rw [esc_noquote E rest _ _ _ hr]
+  | b :: rest, inTag, 0, 0, h => by
     have hb := h b (by simp)
     have hr : ∀ x ∈ rest, x ≠ dq ∧ x ≠ sq := fun x hx => h x (by simp [hx])
-    unfold esc
+    rw [esc]
     have h1 : (b == dq) = false := by simpa using hb.1
     have h2 : (b == sq) = false := by simpa using hb.2
-    simp [h1, h2, esc_noquote E rest _ hr]
+    simp only [bne_self_eq_false, Bool.false_eq_true, ite_false, h1, h2, Bool.or_self, Bool.false_and]
+    split
+    · rw [esc_noquote E rest _ _ _ hr]
+    · split
+      · rw [esc_noquote E rest _ _ _ hr]
+      · simp [esc_noquote E rest _ _ _ hr]
 
 end Gomjml.Amp
 
@@ -80,17 +116,17 @@ theorem entityAhead_amp (E : Ent) (hE : E.valid [97, 109, 112] = true) (rest : L
 
 /-- inside a quoted value an ordinary byte (not the quote, not `&`) is copied -/
 theorem esc_copy (E : Ent) (inTag : Bool) (q b : B) (rest : List B) (hq : (q != 0) = true) (hbq : (b == q) = false) (hba : (b == amp) = false) :
-    esc E inTag q (b :: rest) = b :: esc E inTag q rest := by
+    esc E inTag q 0 0 (b :: rest) = b :: esc E inTag q 0 0 rest := by
   rw [esc]; simp [hq, hbq, hba]
 
 /-- … and at an `&` the look-ahead decides -/
 theorem esc_at_amp (E : Ent) (inTag : Bool) (q : B) (rest : List B) (hq : (q != 0) = true) (haq : (amp == q) = false) :
-    esc E inTag q (amp :: rest) = (if entityAhead E rest then [amp] else ampEsc) ++ esc E inTag q rest := by
+    esc E inTag q 0 0 (amp :: rest) = (if entityAhead E rest then [amp] else ampEsc) ++ esc E inTag q 0 0 rest := by
   rw [esc]; simp [hq, haq]
 
 /-- `&amp;` itself is left exactly as written -/
 theorem esc_amp_entity (E : Ent) (hE : E.valid [97, 109, 112] = true) (inTag : Bool) (q : B) (hq : q = dq ∨ q = sq) (rest : List B) :
-    esc E inTag q (ampEsc ++ rest) = ampEsc ++ esc E inTag q rest := by
+    esc E inTag q 0 0 (ampEsc ++ rest) = ampEsc ++ esc E inTag q 0 0 rest := by
   have hamp := entityAhead_amp E hE rest
   have hq0 : (q != 0) = true := by rcases hq with rfl | rfl <;> decide
   have haq : (amp == q) = false := by rcases hq with rfl | rfl <;> decide
@@ -98,7 +134,7 @@ theorem esc_amp_entity (E : Ent) (hE : E.valid [97, 109, 112] = true) (inTag : B
   have c2 : ((109 : B) == q) = false := by rcases hq with rfl | rfl <;> decide
   have c3 : ((112 : B) == q) = false := by rcases hq with rfl | rfl <;> decide
   have c4 : (semi == q) = false := by rcases hq with rfl | rfl <;> decide
-  show esc E inTag q (amp :: 97 :: 109 :: 112 :: semi :: rest) = amp :: 97 :: 109 :: 112 :: semi :: esc E inTag q rest
+  show esc E inTag q 0 0 (amp :: 97 :: 109 :: 112 :: semi :: rest) = amp :: 97 :: 109 :: 112 :: semi :: esc E inTag q 0 0 rest
   rw [esc_at_amp E inTag q _ hq0 haq, hamp, esc_copy E inTag q 97 _ hq0 c1 (by decide), esc_copy E inTag q 109 _ hq0 c2 (by decide),
     esc_copy E inTag q 112 _ hq0 c3 (by decide), esc_copy E inTag q semi _ hq0 c4 (by decide)]
   rfl
@@ -107,10 +143,98 @@ theorem esc_amp_entity (E : Ent) (hE : E.valid [97, 109, 112] = true) (inTag : B
     where no entity follows, the scanner's output for `&…` and for `&amp;…` is the same — byte for byte, whatever comes after -/
 theorem esc_bare_amp (E : Ent) (hE : E.valid [97, 109, 112] = true) (inTag : Bool) (q : B) (hq : q = dq ∨ q = sq)
     (rest : List B) (h : entityAhead E rest = false) :
-    esc E inTag q (amp :: rest) = esc E inTag q (ampEsc ++ rest) := by
+    esc E inTag q 0 0 (amp :: rest) = esc E inTag q 0 0 (ampEsc ++ rest) := by
   have hq0 : (q != 0) = true := by rcases hq with rfl | rfl <;> decide
   have haq : (amp == q) = false := by rcases hq with rfl | rfl <;> decide
   rw [esc_amp_entity E hE inTag q hq rest, esc_at_amp E inTag q rest hq0 haq, h]
   rfl
+
+/-! ### comments and CDATA sections are copied as they are -/
+
+/-- `sk` bytes are copied whatever they are -/
+theorem esc_skip (E : Ent) (inTag : Bool) (q : B) (blk : Nat) : ∀ (pre rest : List B),
+    esc E inTag q pre.length blk (pre ++ rest) = pre ++ esc E inTag q 0 blk rest
+  | [], rest => rfl
+  | b :: pre, rest => by
+    show esc E inTag q (pre.length + 1) blk (b :: (pre ++ rest)) = b :: (pre ++ esc E inTag q 0 blk rest)
+    rw [esc, esc_skip E inTag q blk pre rest]
+
+/-- the body of a block does not contain its terminator early -/
+def endsOnlyAt (close body : List B) : Prop := ∀ k, k < body.length → close.isPrefixOf ((body ++ close).drop k) = false
+
+theorem endsOnlyAt_tail {close : List B} {x : B} {t : List B} (h : endsOnlyAt close (x :: t)) : endsOnlyAt close t := by
+  intro k hk
+  have := h (k + 1) (by simpa using hk)
+  simpa using this
+
+theorem isPrefixOf_append_left' : ∀ (l a b : List B), l.length ≤ a.length → l.isPrefixOf (a ++ b) = l.isPrefixOf a
+  | [], _, _, _ => by simp
+  | x :: l, [], _, h => by simp at h
+  | x :: l, y :: a, b, h => by
+    simp only [List.cons_append, List.isPrefixOf]
+    rw [isPrefixOf_append_left' l a b (by simpa using h)]
+
+/-- inside a block (`blk + 1`) everything up to and including the terminator is copied, then scanning goes on in the state
+    it was left in -/
+theorem esc_block (E : Ent) (inTag : Bool) (q : B) (blk : Nat) (hlen : (closer blk).length = 3) : ∀ (body rest : List B),
+    endsOnlyAt (closer blk) body →
+    esc E inTag q 0 (blk + 1) (body ++ closer blk ++ rest) = body ++ closer blk ++ esc E inTag q 0 0 rest
+  | [], rest, _ => by
+    match hc : closer blk, hlen with
+    | [c1, c2, c3], _ =>
+      have hp : (closer blk).isPrefixOf (c1 :: ([c2, c3] ++ rest)) = true := by
+        rw [hc]; exact List.isPrefixOf_iff_prefix.mpr ⟨rest, rfl⟩
+      show esc E inTag q 0 (blk + 1) (c1 :: ([c2, c3] ++ rest)) = _
+      rw [esc]
+      simp only [hp, if_true]
+      have := esc_skip E inTag q 0 [c2, c3] rest
+      simp only [List.length_cons, List.length_nil] at this
+      rw [this]; rfl
+  | x :: t, rest, h => by
+    have h0 : (closer blk).isPrefixOf (x :: t ++ closer blk) = false := by simpa using h 0 (by simp)
+    have h0' : (closer blk).isPrefixOf (x :: (t ++ closer blk ++ rest)) = false := by
+      have := isPrefixOf_append_left' (closer blk) (x :: t ++ closer blk) rest (by simp [hlen])
+      simpa [List.append_assoc] using this.trans h0
+    show esc E inTag q 0 (blk + 1) (x :: (t ++ closer blk ++ rest)) = x :: (t ++ closer blk ++ esc E inTag q 0 0 rest)
+    rw [esc]
+    simp only [h0', Bool.false_eq_true, if_false]
+    rw [esc_block E inTag q blk hlen t rest (endsOnlyAt_tail h)]
+
+/-- **a comment is not markup**: outside a quoted value, `<!-- body -->` is copied exactly as written — quotes, ampersands,
+    angle brackets and all — and the scanner goes on behind it in the state it was in -/
+theorem esc_comment (E : Ent) (inTag : Bool) (body rest : List B) (h : endsOnlyAt cmClose body) :
+    esc E inTag 0 0 0 (lt :: cmOpen ++ body ++ cmClose ++ rest) = lt :: cmOpen ++ body ++ cmClose ++ esc E inTag 0 0 0 rest := by
+  have hp : cmOpen.isPrefixOf (cmOpen ++ body ++ cmClose ++ rest) = true := by
+    rw [List.append_assoc, List.append_assoc]; exact List.isPrefixOf_iff_prefix.mpr ⟨_, rfl⟩
+  show esc E inTag 0 0 0 (lt :: (cmOpen ++ body ++ cmClose ++ rest)) = _
+  rw [esc]
+  simp only [bne_self_eq_false, Bool.false_eq_true, if_false, beq_self_eq_true, hp, Bool.and_self, if_true]
+  have hs := esc_skip E inTag 0 1 cmOpen (body ++ cmClose ++ rest)
+  have hb := esc_block E inTag 0 0 rfl body rest h
+  simp only [closer, if_true] at hb
+  have e : cmOpen ++ body ++ cmClose ++ rest = cmOpen ++ (body ++ cmClose ++ rest) := by simp [List.append_assoc]
+  rw [e]
+  show lt :: esc E inTag 0 cmOpen.length 1 (cmOpen ++ (body ++ cmClose ++ rest)) = _
+  rw [hs, hb]
+  simp [List.append_assoc]
+
+/-- **a CDATA section is character data**: `<![CDATA[ body ]]>` is copied exactly as written -/
+theorem esc_cdata (E : Ent) (inTag : Bool) (body rest : List B) (h : endsOnlyAt cdClose body) :
+    esc E inTag 0 0 0 (lt :: cdOpen ++ body ++ cdClose ++ rest) = lt :: cdOpen ++ body ++ cdClose ++ esc E inTag 0 0 0 rest := by
+  have hp : cdOpen.isPrefixOf (cdOpen ++ body ++ cdClose ++ rest) = true := by
+    rw [List.append_assoc, List.append_assoc]; exact List.isPrefixOf_iff_prefix.mpr ⟨_, rfl⟩
+  have hn : cmOpen.isPrefixOf (cdOpen ++ body ++ cdClose ++ rest) = false := by
+    simp [cmOpen, cdOpen, List.isPrefixOf]
+  show esc E inTag 0 0 0 (lt :: (cdOpen ++ body ++ cdClose ++ rest)) = _
+  rw [esc]
+  simp only [bne_self_eq_false, Bool.false_eq_true, if_false, beq_self_eq_true, hp, hn, Bool.and_self, Bool.and_false, if_true]
+  have hs := esc_skip E inTag 0 2 cdOpen (body ++ cdClose ++ rest)
+  have hb := esc_block E inTag 0 1 rfl body rest h
+  simp only [closer, Nat.succ_ne_zero, if_false] at hb
+  have e : cdOpen ++ body ++ cdClose ++ rest = cdOpen ++ (body ++ cdClose ++ rest) := by simp [List.append_assoc]
+  rw [e]
+  show lt :: esc E inTag 0 cdOpen.length 2 (cdOpen ++ (body ++ cdClose ++ rest)) = _
+  rw [hs, hb]
+  simp [List.append_assoc]
 
 end Gomjml.Amp
